@@ -142,6 +142,7 @@ func init() {
 				e.obs = kept
 			}},
 			{ID: "R10", Desc: "functions of the update grammar do not modify their operands (T-PURE)", Run: c07R10},
+			{ID: "R11", Desc: "SET stores a copy of its operand, not the operand's own object (T-COPY)", Run: c07R11},
 		},
 	})
 }
@@ -741,5 +742,77 @@ func c07R10(e *Engine) {
 	}
 	if n < 4 {
 		e.fail("R10", "count:R10", "-", "only %d functions of the update grammar found", n)
+	}
+}
+
+// c07R11: `SET a = b` evaluates b to the environment's own object of b. Storing that very object under a makes a and b
+// one object; a later clause that changes b in place (SET b[0] = …, REMOVE b[1], ADD b …) changes a too, although a was
+// to receive b's pre-update value. What the SET handler stores must have gone through a copying function.
+func c07R11(e *Engine) {
+	hs, _ := e.actionHandlers()
+	set := hs["SET"]
+	eu := e.fn("lang", "EvalUpdate")
+	get := e.fn("lang", "Environment.Get")
+	if !e.anchor("R11", "SET handler / EvalUpdate / Environment.Get", set == nil || eu == nil || get == nil) {
+		return
+	}
+	if !e.reach(eu)[get] {
+		e.pass("R11", e.fname(set)+":stores-a-copy", e.pos(set.Pos()), "operand evaluation never hands out an environment object")
+		return
+	}
+	n := 0
+	bad := ""
+	instrs(set, func(in ssa.Instruction) {
+		c, ok := in.(*ssa.Call)
+		if !ok || c.Call.StaticCallee() == nil || e.fnRole(c.Call.StaticCallee()) != "lang" {
+			return
+		}
+		g := c.Call.StaticCallee()
+		// the storing calls: Environment.Set(name, value) and the path assignment helper (…, value, env)
+		vi := -1
+		switch {
+		case g.Name() == "Set" && g.Signature.Recv() != nil && len(c.Call.Args) == 3:
+			vi = 2
+		case g != eu && g.Signature.Recv() == nil && e.reach(g)[e.fn("lang", "indexAccessor.Set")]:
+			for i, a := range c.Call.Args {
+				if i > 0 && typeName(a.Type()) == "language.Object" {
+					vi = i
+				}
+			}
+		}
+		if vi < 0 {
+			return
+		}
+		n++
+		v := strip(c.Call.Args[vi])
+		vc, isCall := v.(*ssa.Call)
+		switch {
+		case isCall && (vc.Call.StaticCallee() == eu || vc.Call.StaticCallee() == e.fn("lang", "Eval")):
+			bad = "the object returned by " + e.fname(vc.Call.StaticCallee()) + " is stored as it is at " + e.ipos(c)
+		case isCall && vc.Call.StaticCallee() != nil && e.fnRole(vc.Call.StaticCallee()) == "lang":
+			// a copying function: accepted when it can build new objects
+			fresh := false
+			for h := range e.reach(vc.Call.StaticCallee()) {
+				instrs(h, func(j ssa.Instruction) {
+					if al, ok := j.(*ssa.Alloc); ok && al.Heap && namedOf(al.Type()) != nil && e.roleOf(namedOf(al.Type()).Obj().Pkg()) == "lang" {
+						fresh = true
+					}
+				})
+			}
+			if !fresh {
+				bad = "the value stored at " + e.ipos(c) + " comes from " + e.fname(vc.Call.StaticCallee()) + ", which builds no new object"
+			}
+		default:
+			bad = "the value stored at " + e.ipos(c) + " is not the result of a copying function"
+		}
+	})
+	construct := e.fname(set) + ":stores-a-copy"
+	switch {
+	case n == 0:
+		e.undecided("R11", construct, e.pos(set.Pos()), "no storing call found in the SET handler")
+	case bad != "":
+		e.fail("R11", construct, e.pos(set.Pos()), "%s: the target and the operand attribute share one object, and later clauses change objects in place – `SET a = b, b[0] = :x` also changes a[0]", bad)
+	default:
+		e.pass("R11", construct, e.pos(set.Pos()), "%d storing call(s) store the result of a copying function", n)
 	}
 }
